@@ -68,6 +68,8 @@ class C10Spec(explore.Spec):
             ("fw", 1, "x", 1, "F1"),
             ("fw", 1, "1", "1", "F1"),  # type/version as convertible strings (config file, service call)
             ("fw", 2, "1", " 1", None),
+            ("fw", 2, 0, 0, "F1"),  # firmware type 0 / version 0 are values like any other
+            alpha.rx("2;255;4;0;2;" + words_to_hex(0, 0, 0)),
         ]
         return evs
 
@@ -96,6 +98,35 @@ ASSUMPTIONS = [
 ]
 
 
+# -- part (b): an update call on the application thread against the poll thread answering requests (E2) ----------
+
+def _b_run_one(name, prefix):
+    """Same harness as C09 part (c); C10's oracle: after the call returned and the queue is drained, every node of the
+    call is in a fresh or running session - its next config request is answered, and then its block request."""
+    from . import c09
+
+    sched = c09._c_run_one(name, prefix)
+    gw = sched.gw
+    nids, _ = c09.C_SCENARIOS[name]
+    findings = []
+    if sched.problem is None and not any(e[0] in ("pump-raised", "call-raised") for e in sched.log):
+        cfg_req = words_to_hex(1, 0, 8, 0, 0x0102)
+        for nid in nids:
+            first = gw.logic(f"{nid};255;4;0;0;{cfg_req}")
+            blk = gw.logic(f"{nid};255;4;0;2;" + words_to_hex(1, 1, 0))
+            if blk is None:
+                findings.append(("scheduled-node-not-served", f"node {nid} was scheduled by an update call for which firmware exists, yet after the call its config request got {'a reply' if first else 'no reply'} and its block request none (session lost while the poll thread answered a request during the call)"))
+    sched.findings = findings
+    return sched
+
+
+B_RULE = (
+    "application thread calling make_update for nodes that are in no session against the real poll thread answering their "
+    "queued config/block requests; every schedule up to the preemption bound at line granularity of ota.py; afterwards, "
+    "sequentially, every node of the call asks for the config and for block 0: both must be answered"
+)
+
+
 def run(tier):
     from .. import explore, tlc_replay
     from ..common import HarnessError, Report
@@ -107,11 +138,18 @@ def run(tier):
     else:
         explore.run(spec, report, tier, 12, 3000000, 1800)
     e1check.confirm_all(spec, report)
+    from .. import tvp
+    from . import c09
+
+    part_b = tvp.run_scenarios(report, PROP, "c10b", _b_run_one, list(c09.C_SCENARIOS), 1 if tier == "quick" else 2, 240 if tier == "quick" else 900, B_RULE)
     # TLA+ cross-check: every edge of TLC's complete state graph is replayed on the real gateway
     tlc = tlc_replay.replay_all(report)
     cov = report.coverage
     cov["rule"] = RULE + "; plus the TLA+ model spec/OtaSession.tla: TLC computes its complete state graph and every edge is replayed on the implementation (reply kind and abstracted session state compared with the edge's target)"
     cov["tlc"] = tlc
+    cov["threaded_update_call"] = part_b
+    cov["schedules"] = part_b["schedules"]
+    cov.setdefault("caps_hit", []).extend(part_b["caps_hit"])
     cov["traces_validated_against_impl"] = cov["transitions"] + tlc["edges_replayed_on_impl"]
     cov["evaluations"] = cov["transitions"] + tlc["edges_replayed_on_impl"]
     cov["distinct_nontrivial"] = cov["states"] + tlc["tlc_distinct_states"]
@@ -121,6 +159,10 @@ def run(tier):
 
 def replay(data):
     rep = data["replay"]
+    if rep.get("kind") == "schedule":
+        from .. import tvp
+
+        return tvp.replay_schedule(_b_run_one, rep, PROP)
     if rep.get("kind") == "tlc":
         from .. import tlc_replay
 
